@@ -102,6 +102,10 @@ def sources(tier, seed, ctx):
             srcs.append({'k': 'cnftemplate', 't': t, 'n': 4, 'ops': ops, 'down': 'NOT'})
     for code in itertools.product('01', repeat=4):
         srcs.append({'k': 'synthcode', 'code': ''.join(code)})
+    # deep circuits: one path longer than the interpreter's recursion limit through every evaluation entry point
+    for depth in ([1500] if tier == 'quick' else [1500, 4000]):
+        srcs.append({'k': 'evaldeep', 'depth': depth})
+        srcs.append({'k': 'evaldeep', 'depth': depth, 'rev': True})
     return srcs
 
 
@@ -173,10 +177,11 @@ def _rowsets(vectors, width, bad, name):
     return out
 
 
-def observe_eval(c):
+def observe_eval(c, sample=None):
+    """sample: compare only these gates (deep circuits); None = every gate."""
     n = c.input_size
     rows = list(itertools.product((False, True), repeat=n))
-    labels = list(c.gates)
+    labels = list(c.gates) if sample is None else list(sample)
     outs = list(c.outputs)
     bad = set()
     excs = {}
@@ -238,7 +243,7 @@ def observe_eval(c):
     tt = guard('get_truth_table', lambda: c.get_truth_table())
     gtt = guard('get_gates_truth_table', lambda: c.get_gates_truth_table())
     single = []
-    for lab in labels:
+    for lab in (labels if sample is None else labels[-2:] + labels[:1]):
         res = [guard('evaluate_circuit_single', lambda: c.evaluate_circuit(dict(a), outputs=[lab])) for a in asg]
         t = _table(res, labels)
         t['out'] = lab
@@ -296,6 +301,23 @@ def record(src):
             except Exception:
                 pass
         return {'kind': 'eval', 'c': project(c), 'obs': observe_eval(c), 'src': src}
+    if src['k'] == 'evaldeep':
+        n = src['depth']
+        c = Circuit()
+        c.add_inputs(['x', 'y'])
+        order = ['x', 'y']
+        for k in range(n):
+            ops = ('x',) if k == 0 else (f'g{k - 1}', 'y') if k % 2 else (f'g{k - 1}',)
+            c.emplace_gate(f'g{k}', G.XOR if k % 2 else G.NOT, ops)
+            order.append(f'g{k}')
+        c.set_outputs([f'g{n - 1}', f'g{n // 2}'])
+        if src.get('rev'):
+            for l in order[2:][::-1]:          # users before operands in storage order
+                c.rename_gate(l, l + '_')
+            order = order[:2] + [l + '_' for l in order[2:]]
+        sample = list(dict.fromkeys(list(c.outputs) + order[2::97] + order[-3:]))
+        return {'kind': 'evaldeep', 'c': project(c, users=False, blocks=False), 'order': order, 'sample': sample,
+                'obs': observe_eval(c, sample=sample), 'src': src}
     if src['k'] in ('optable', 'ttcode', 'pattern'):
         # what the library raises while one of its gate tables is read is an observation, not a harness failure
         try:
